@@ -223,6 +223,35 @@ def special_histories(tier):
     return H
 
 
+FINDING_ID = "stale-settings-after-clear"
+FINDING_HISTORY = ["new server memory 1 100 2048", "req 0 1000 jar age:5 clear set:6b:76", "req 0 1004 jar"]
+# the behaviour as recorded: deadline and cookie age from the stale age 5; the next request reads age 100 and re-saves
+FINDING_EXPECT = [
+    "ok",
+    "P - R 100,1,0,[] S ok C [@=I#0:5] J I#0,[] T [I#0@1005=010800006b76] A [sI#0]",
+    "P I#0 R 100,1,0,[6b=76:0] S ok C [@=I#0:100;6b=-:del] J I#0,[] T [I#0@1104=010800006b76] A [lI#0;sI#0]",
+]
+
+
+def replay_finding(c, hbin):
+    """replay the known-finding witness on the real code; KNOWN-FINDING only if it behaves exactly as recorded"""
+    rc, out, err = c.run_lines(hbin, FINDING_HISTORY, args=(c.scratch,), timeout=120)
+    c.extra_cov["finding_witness_output"] = out
+    if rc != 0:
+        c.violation("sanitizer abort / crash of the real code on the known-finding witness", {"history": FINDING_HISTORY, "stderr": err})
+        return
+    if out == FINDING_EXPECT:
+        if c.is_known(FINDING_ID):
+            c.known_finding(FINDING_ID, f"id={FINDING_ID} age(5); clear(); set(k,v) is saved with the stale age (deadline now+5, cookie age 5) "
+                                        "and the next request reads the default age (witness gen/corpus/C06/stale_settings_after_clear.hist)")
+        else:
+            c.violation("working values set before clear() are used by save() but not persisted (not listed in known_findings.txt)",
+                        {"history": FINDING_HISTORY, "impl_output": out})
+    else:
+        # no longer reproduces as recorded: say so in the log; the judge and the correspondence decide about the new behaviour
+        c.log("known finding " + FINDING_ID + " no longer reproduces exactly as recorded: " + repr(out))
+
+
 def parse_corpus():
     res = []
     for f in sorted(glob.glob(os.path.join(ROOT, "gen", "corpus", "C06", "*.hist"))):
@@ -367,6 +396,8 @@ def main():
             h, judged = gen_history(c.rng, c.tier)
             hists.append(("random", h, judged))
 
+    if hbin and not c.replay_path:
+        replay_finding(c, hbin)
     if hbin and os.path.exists(model) and hists:
         cases = [l for _, h, _ in hists for l in h]
         judged_flags = [j for _, _, j in hists]
